@@ -44,7 +44,7 @@ impl Property for C16 {
         "histories of length/substring_data/append_data/insert_data/delete_data/replace_data/set_data/split_text calls (plus creation and attachment of text, comment \
          and CDATA nodes) from a proptest gene vector; content strings over ASCII, 2-, 3-, 4-byte characters and combining marks (no markup-significant characters: those are \
          C15's subject); offsets and counts in 0..=11 and usize::MAX, usize::MAX-1. Oracle: a Vec<char> model per node with the DOM Level 1 rules (offset > length -> \
-         INDEX_SIZE_ERR, count clipped to the end, split_text leaves two adjacent siblings whose data concatenate to the original); after every call the result class, the \
+         INDEX_SIZE_ERR, count clipped to the end, split_text leaves two adjacent siblings whose data concatenate to the original, and leaves the character data of the parent as a whole unchanged in both views); after every call the result class, the \
          returned string, data() and length() are compared. Non-trivial = a call on non-ASCII content, or with an offset/count at or beyond the length, or a split; \
          distinct by operation list."
             .into()
@@ -140,6 +140,8 @@ impl Property for C16 {
                 nontrivial = true;
             }
             let had_parent = node.parent_node().is_some();
+            // the character data of the parent as a whole: a split must not change it, in either view
+            let parent_text_before: Option<String> = node.parent_node().and_then(|p| xml_dom::AsStringValue::as_string_value(&p).ok());
             let before = pool.nodes.len();
             let out = hist::apply(&mut pool, op);
             if let Outcome::NotApplicable | Outcome::Excluded(_) = out {
@@ -264,6 +266,15 @@ impl Property for C16 {
                     fail!(format!("c16.split_text.wrong-tail.{}", ccl), format!("step {} {} on {:?}: new node holds {:?}, expected {:?}", step, op, cur_s, data_of(&newn), tail));
                 }
                 model.insert((pool.origin[pool.nodes.len() - 1], newn.id()), tail.chars().collect());
+                if had_parent {
+                    let parent_text_after: Option<String> = node.parent_node().and_then(|p| xml_dom::AsStringValue::as_string_value(&p).ok());
+                    if parent_text_before.is_some() && parent_text_before != parent_text_after {
+                        fail!(
+                            "c16.split_text.parent-text-changed".to_string(),
+                            format!("step {} {}: the split changed the character data of the parent from {:?} to {:?}", step, op, parent_text_before, parent_text_after)
+                        );
+                    }
+                }
                 if had_parent && !merged {
                     // (in the merged-text view adjacent text pieces are presented as one node)
                     // the two nodes must be adjacent siblings, in this order, under the same parent
